@@ -196,9 +196,12 @@ func runC07(c any, x *kit.Ctx) {
 	lenientNull := false
 	if lay.null() && !cs.ZeroEOF {
 		if cs.Supplied == "" && lay.embedded == 0 {
+			// null padding without the option is outside the statement's configurations: whether
+			// the open scans and refuses is documented behaviour, recorded but not asserted
 			if err == nil {
 				ra.Close()
-				x.Fail(base+"null-padding-accepted:"+tag, "archive with null padding opened without ZeroLengthSectionAsEOF")
+				x.Outcome("beyond-statement:null-padding-accepted")
+				return
 			}
 			x.Outcome("refused-null-padding")
 			return
@@ -208,6 +211,12 @@ func runC07(c any, x *kit.Ctx) {
 			return
 		}
 		lenientNull = true
+	}
+	if err != nil && lay.tail {
+		// sections after the null padding are not null padding: the statement does not say that
+		// such an archive has to be accepted (an accepted one must behave like the scan)
+		x.Outcome("refused-data-after-padding")
+		return
 	}
 	if err != nil && cs.Hdr != "" {
 		// a header that is not canonical dag-cbor may be refused
@@ -229,10 +238,13 @@ func runC07(c any, x *kit.Ctx) {
 	defer ra.Close()
 
 	// the index in use
+	// The statement is about the answers, not about the Index() accessor: which object it returns
+	// is recorded only. That a supplied index is the one consulted is observable through the
+	// answers (the *-noid containers: identity keys are found only through the supplied index).
 	if got := drv.IndexOf(ra); got == nil {
-		x.Fail(base+"index-nil:"+tag, "Index() is nil on an open store")
+		x.Outcome("beyond-statement:index-nil")
 	} else if idx != nil && got != idx {
-		x.Fail(base+"supplied-index-replaced:"+tag, "NewReadOnly was given an index but Index() returns another one (%T)", got)
+		x.Outcome("beyond-statement:supplied-index-replaced")
 	}
 
 	m := &model.Map{Cfg: model.Cfg{Whole: cs.Whole, StoreID: cs.StoreID, AllowDup: true}}
@@ -292,13 +304,13 @@ func runC07(c any, x *kit.Ctx) {
 				if gerr == nil {
 					x.Fail(pfx+"get-absent:"+tag, "Get(%s) returned %x but no section carries that key", q.Name, clip(data))
 				} else if !isNotFound(gerr) {
-					x.Fail(pfx+"get-absent-error:"+tag, "Get(%s) of an absent key returned %v, not a not-found error", q.Name, gerr)
+					x.Outcome("beyond-statement:absent-error-kind") // the statement does not fix the kind of error
 				}
 				if !(ident && drv.IsBlockstoreKind(cs.Front)) { // GetSize of an identity CID never consults the archive (documented)
 					if serr == nil {
 						x.Fail(pfx+"size-absent:"+tag, "GetSize(%s)=%d but no section carries that key", q.Name, size)
 					} else if !isNotFound(serr) {
-						x.Fail(pfx+"size-absent-error:"+tag, "GetSize(%s) of an absent key returned %v, not a not-found error", q.Name, serr)
+						x.Outcome("beyond-statement:absent-error-kind")
 					}
 				}
 				continue
@@ -337,14 +349,22 @@ func runC07(c any, x *kit.Ctx) {
 		}
 		x.Transition(1)
 		if lenientNull {
-			// the walk meets a zero-length section that the configuration does not allow: the keys
-			// in front of it are the scan's, and the error has to reach the async error handler
+			// The walk meets a zero-length section that the configuration does not allow. The
+			// statement quantifies null padding only together with ZeroLengthSectionAsEOF: what the
+			// listing delivers here and whether the async error handler is called is documented
+			// behaviour, recorded but not asserted.
 			if !sameRoots(keys, wantKeys) {
-				x.Fail(pfx+"null-listing-keys:"+tag, "AllKeysChan over null padding (no ZeroLengthSectionAsEOF)=%x want the sections in front of the padding %x", keys, wantKeys)
+				x.Outcome("beyond-statement:null-listing-keys")
 			}
 			if err == nil {
-				x.Fail(pfx+"null-listing-silent:"+tag, "AllKeysChan stopped at a zero-length section without ZeroLengthSectionAsEOF and reported no error to the async error handler")
+				x.Outcome("beyond-statement:null-listing-silent")
 			}
+			return
+		}
+		if lay.tail && err != nil && len(keys) <= len(wantKeys) && sameRoots(keys, wantKeys[:len(keys)]) {
+			// data after the null padding (not null padding, see the open): a listing that delivers
+			// scan keys and then refuses the archive is not contradicted by the statement
+			x.Outcome("beyond-statement:listing-refused-data-after-padding")
 			return
 		}
 		if err != nil || !sameRoots(keys, wantKeys) {
@@ -574,11 +594,13 @@ func init() {
 			"container {CARv1, CARv2 plain/padded/with embedded index of either codec, null padding after the sections (v1, v2, v2 with embedded index), sections after the null padding, embedded index without identity records next to a supplied one with them}; " +
 			"header shape {roots nil(null), empty, a, a0 (CIDv0), ab, 4 roots (body >= 128 bytes, 2-byte length varint)} x {canonical, version key before roots key (may be refused)}; " +
 			"options UseWholeCIDs x StoreIdentityCIDs x ZeroLengthSectionAsEOF (with null padding and on CARv1) x UseIndexCodec(IndexSorted) for generated indexes; " +
-			"index source {embedded, generated, supplied mh/sorted: Index() must be the supplied object}; " +
+			"index source {embedded, generated, supplied mh/sorted (which object Index() returns is recorded as beyond-statement outcome, not asserted)}; " +
 			"front-end {NewReadOnly, OpenReadable} x backing {bytes.Reader, ReaderAt-only, *os.File, ReaderAt returning io.EOF with the final bytes, bytes.Reader with a non-zero Read position} + OpenReadOnly (mmap); supplied indexes over the first four NewReadOnly backings; " +
 			"call order {queries, roots, listing, roots, listing, queries, cancelled listing, listing} and {roots, listing, queries, cancelled listing, listing, roots, queries} (repeated calls have their own c07:again: signatures). " +
 			"Queries: every alphabet CID, an absent one and every block of the sequence (Has, Get, GetSize resp. Get+GetStream). " +
-			"Null padding without ZeroLengthSectionAsEOF: the open must fail when it scans; when nothing scans at open (supplied/embedded index) the listing must be the sections in front of the padding and report an error to the async handler. " +
+			"Null padding without ZeroLengthSectionAsEOF is outside the statement's configurations: a refusal at open ends the case; an accepted open (supplied/embedded index) has its queries compared with the sections in front of the padding, while an open that scans and accepts, the keys of the listing and the call of the async error handler are recorded as beyond-statement outcomes only. " +
+			"Sections after the null padding: a refusal at open (or a listing that delivers a prefix of the scan keys and then reports an error) is accepted, an accepted archive must behave like the scan. " +
+			"An absent key must make Get/GetSize fail; the kind of error is recorded (beyond-statement:absent-error-kind), not asserted. " +
 			"A cancelled listing must deliver a prefix of the scan order. " +
 			"thorough: full product for sequences of length <= 2 and the special ones; length-3 sequences with the 7 historical containers in the queries-first order; new containers and IndexSorted generation over length <= 2 + special; header shapes x special sequences x all containers. " +
 			"quick: length <= 2 + special x historical containers x all front-ends/supplied indexes in the queries-first order; listing-first order, new containers and IndexSorted generation over length <= 1 + special; header shapes x special sequences x 5 containers x all front-ends (+ one supplied index). non-trivial = >=2 sections",
@@ -596,7 +618,8 @@ func init() {
 			"GetSize of an identity CID on the blockstore never consults the archive (documented), so it is not compared for absent identity keys",
 			"all hash-equal blocks of a valid archive carry equal bytes, so which of several sections carrying a key was served is not observable (and not constrained by the statement)",
 			"a header with the version key first is not canonical dag-cbor: a refusal at open is accepted, an accepted one must behave like the scan",
-			"after a zero-length section under ZeroLengthSectionAsEOF the scan has ended: later sections are not part of the archive",
+			"after a zero-length section under ZeroLengthSectionAsEOF the scan has ended: later sections are not part of the archive (an implementation that refuses data after the padding is accepted as well)",
+			"identity CIDs without StoreIdentityCIDs are answered as documented (always present, content = digest) rather than by the literal 'present iff some section carries it' of the statement",
 			"the number of keys a cancelled listing delivers is scheduling dependent; only the prefix property is asserted"},
 	})
 }
